@@ -80,14 +80,23 @@ class Ctx:
                 ctx._rename = self_.old
         return _R()
 
+    def _map(self, rule):
+        r = self._rename.get(rule)
+        if r is not None:
+            return r
+        for k, v in self._rename.items():
+            if k.endswith("*") and rule.startswith(k[:-1]):
+                return v
+        return rule
+
     def ok(self, rule, where, detail, nontrivial=True, sample=None):
-        rule = self._rename.get(rule, rule)
+        rule = self._map(rule)
         self.instances.append((rule, self.current_config, where, detail, nontrivial, sample))
         k = (rule, self.current_config)
         self.counts[k] = self.counts.get(k, 0) + 1
 
     def fail(self, rule, where, detail, site=None, path=None):
-        rule = self._rename.get(rule, rule)
+        rule = self._map(rule)
         v = Violation(self.prop, rule, where, detail, site=site, config=self.current_config, path=path)
         # the same line-free key may be hit in several configs: keep one per (key, config)
         self.violations.append(v)
@@ -106,6 +115,7 @@ class Ctx:
         self.notes.append(s)
 
     def floor(self, rule, config, minimum):
+        rule = self._map(rule)
         n = self.counts.get((rule, config), 0)
         if n < minimum:
             raise Inconclusive("floor not met: rule %s config %s evaluated %d instances, expected >= %d" % (rule, config, n, minimum))
